@@ -24,6 +24,25 @@ SPIN_ENDS = ["2000", "500", "x", "", "nan", "1000", "2147483648", None]
 HOLD_EXTRAS = ["2000:0:0:0:0:", "500:1:2", ":0:0", "", "x:0:0", "2000", "2000:1", "2000:1:2:3:4:f.wav", "nan:0:0", None]
 
 
+def rand_path(rng):
+    """random path string from the grammar: 1-4 typed segments over a small coordinate grid, so that duplicates,
+    collinear triples (relative to the segment's own first point, to the origin, or neither) and shared end points occur"""
+    grid_x = [0, 50, 100, 150, 200, 300]
+    grid_y = [0, 50, 100, 200]
+    toks = []
+    last = None
+    for _ in range(rng.randint(1, 4)):
+        toks.append(rng.choice(["B", "L", "P", "P", "C", "B3"]))
+        for _ in range(rng.choice([0, 1, 2, 2, 3, 3, 4])):
+            if last is not None and rng.random() < 0.2:
+                pt = last
+            else:
+                pt = f"{rng.choice(grid_x)}:{rng.choice(grid_y)}"
+            toks.append(pt)
+            last = pt
+    return "|".join(toks)
+
+
 def line(fields):
     return ",".join(f for f in fields if f is not None)
 
@@ -102,6 +121,15 @@ class C14(Property):
             for mode in (0, 1):
                 add(mode, [f"100,100,0,2,0,{p},1,100"], "path")
             add(0, [f"0,0,0,6,0,{p},2", f"5,5,10,2,0,L|6:6,1,10"], "path-then-next")
+        # later perfect-curve segments: collinear w.r.t. their own first point vs w.r.t. the origin
+        for ox, oy in ((0, 0), (100, 100), (37, 211)):
+            for seg in ("P|100:100|100:200|100:300", "P|50:0|100:100|200:200", "P|100:100|200:200|300:300", "P|0:100|100:0|50:50",
+                        "P|10:20|30:40|50:61", "P|100:0|200:0|300:0", "P|0:50|0:150|0:300"):
+                add(0, [f"{ox},{oy},0,2,0,L|100:0|{seg},1,100"], "later-perfect")
+                add(0, [f"{ox},{oy},0,2,0,{seg},1,100"], "first-perfect")
+                add(0, [f"{ox},{oy},0,2,0,B|7:9|L|0:50|{seg}|L|1:1,1,100"], "later-perfect")
+        for _ in range(1500 if tier == "quick" else 60000):
+            add(rng.randint(0, 3), [f"{rng.choice([0, 50, 100, 256])},{rng.choice([0, 50, 192])},{rng.randint(0, 9999)},2,0,{rand_path(rng)},1,100"], "rand-path")
         for r in REPEATS:
             add(0, [f"1,2,3,2,0,B|9:9,{r},50,1|2|3|4,0:0|1:1|2:2|3:3"], "repeat")
         for l in LENGTHS:
